@@ -185,7 +185,8 @@ def run_property(prop, tier, replay=None, extra_props=()):
             if ndec >= 1 and multi:
                 ck.nontrivial.add(json.dumps(c['nodes'], sort_keys=True))
         ck.rule = ('seeded random one-body programs (function, module and class bodies; assignment forms, if/elif/else, while/for with '
-                   'else, try/except/else/finally, with, walrus, raise/return/break/continue; %s) with ALL executions explored by TLC '
+                   'else, try/except/else/finally with reads in the clauses\' type expressions, with, walrus, conditional expressions, decorated def / '
+                   'class statements, raise/return/break/continue; %s) with ALL executions explored by TLC '
                    '(every branch outcome, 0..2 trips, every raise choice; strict and lenient); reference semantics validated two-way '
                    'against CPython on %s; non-trivial = at least one decision point and a read whose value set has >= 2 elements; '
                    'distinct by abstract tree' % ('canonical C03 fragment for %d%%' % int(100 * (0.7 if prop == 'C03' else 0.5 if prop == 'C02' else 0.3)),
@@ -197,7 +198,8 @@ def run_property(prop, tier, replay=None, extra_props=()):
             from . import mscope_common
             mscope_common.run_into(ck, tier, wd, prop=prop)
             ck.rule += ('; PLUS seeded random MULTI-SCOPE programs (nested def with every parameter kind, defaults / decorators / annotations, '
-                        'lambda, class with bases / keywords, comprehensions, closures, global, nonlocal, calls, if / for) with all executions '
+                        'lambda, class with bases / keywords, comprehensions with walrus and lambdas inside, closures, global, nonlocal, import / from-import / '
+                        'star-import of project modules (plain, byte-order mark, coding cookie) and of standard-library modules, calls, if / for) with all executions '
                         'explored by TLC on PyScope.tla (frames, cells, LOAD_NAME fallback of class bodies), validated two-way against CPython '
                         'on every program')
         for c in cases[:2]:
@@ -206,7 +208,9 @@ def run_property(prop, tier, replay=None, extra_props=()):
                        'executions': len(c.get('cpython', []))})
         ck.assumptions = ['helper names (_vo, _vE, _vEB, _vprog) are injected as builtins at run time and ignored in supp\'s diagnostics',
                           'loops are bounded at two trips (sufficient for reaching definitions)',
-                          'C02/C03 clauses only on programs generated inside the respective fragment']
+                          'C02/C03 clauses only on programs generated inside the respective fragment',
+                          'a statement never reads, in its own targets or annotations, a name that the same statement binds (evaluation order inside '
+                          'one statement is decided by source position in supp)']
         return ck.finish()
     finally:
         shutil.rmtree(wd, ignore_errors=True)
